@@ -225,6 +225,9 @@ def _step(w, st, i, op, must_apply=False):
     arg = op[1] if len(op) > 1 else None
     tag = f'#{i} {kind}' + (f':{arg}' if arg else '')
     pre = _obs(s)
+    if kind in ('vle', 'lle', 'sle'):
+        # the receiver is part of the clause name: Stream and MultiStream have separate accessor implementations
+        tag += '@Stream:' + pre['phases'][0] if pre['class'] == 'Stream' else '@MultiStream'
     ne = _nonempty(pre)
     multi = pre['class'] == 'MultiStream'
     phases = pre['phases']
